@@ -492,7 +492,7 @@ Proof.
     repeat constructor; discriminate.
   - intros o' (s & [P S] & ->).
     assert (E : [sen_d; sen_y] = s).
-    { apply sorted_perm_unique; auto.
+    { apply (sorted_perm_unique dcmp dcmp_anti); auto.
       - repeat constructor; discriminate.
       - intros a b [<-|[<-|[]]] [<-|[<-|[]]]; vm_compute; intros; try reflexivity; discriminate. }
     subst s. reflexivity.
